@@ -259,6 +259,21 @@ def main_check(pid, tier):
     }
     evdir = os.environ.get("VERIF_EVIDENCE_DIR", os.path.join(ROOT, "evidence"))
     os.makedirs(evdir, exist_ok=True)
+    # the file holds ONE run; a short, clearly labelled summary of the latest run of the OTHER tier is carried along so that
+    # a quick run does not erase the record of the thorough one (numbers of that earlier run, not of this one)
+    try:
+        old = json.load(open(os.path.join(evdir, "%s.json" % pid)))
+        if old.get("tier") != tier:
+            oc = old.get("coverage", {})
+            cov["latest_run_of_the_other_tier"] = {
+                "note": "summary of an EARLIER run, copied from the previous evidence file; nothing here was measured by this run",
+                "tier": old.get("tier"), "seed": old.get("seed"), "wall_s": old.get("wall_s"), "verdict": oc.get("verdict"),
+                "evaluations": oc.get("evaluations"), "distinct_nontrivial": oc.get("distinct_nontrivial"),
+                "violations": old.get("violations"), "counters": oc.get("counters")}
+        elif "latest_run_of_the_other_tier" in old.get("coverage", {}):
+            cov["latest_run_of_the_other_tier"] = old["coverage"]["latest_run_of_the_other_tier"]
+    except Exception:
+        pass
     with open(os.path.join(evdir, "%s.json" % pid), "w") as f:
         json.dump(ev, f, indent=1, default=str)
 
